@@ -854,6 +854,9 @@ pub fn duration_to_formattable(
 // TODO: Update, optimize, and fix the below. is_valid_duration should probably be generic over a T.
 
 const TWO_POWER_FIFTY_THREE: i128 = 9_007_199_254_740_992;
+const TWO_POWER_THIRTY_TWO: f64 = 4_294_967_296.0;
+// 2**53 × 10**9, the nanosecond count of the largest time duration (exclusive).
+const MAX_TIME_FIELD: f64 = 9_007_199_254_740_992_000_000_000.0;
 
 // NOTE: Can FiniteF64 optimize the duration_validation
 /// Utility function to check whether the `Duration` fields are valid.
@@ -900,15 +903,15 @@ pub(crate) fn is_valid_duration(
         }
     }
     // 3. If abs(years) ≥ 2**32, return false.
-    if years.abs() >= f64::from(u32::MAX) {
+    if years.abs() >= TWO_POWER_THIRTY_TWO {
         return false;
     };
     // 4. If abs(months) ≥ 2**32, return false.
-    if months.abs() >= f64::from(u32::MAX) {
+    if months.abs() >= TWO_POWER_THIRTY_TWO {
         return false;
     };
     // 5. If abs(weeks) ≥ 2**32, return false.
-    if weeks.abs() >= f64::from(u32::MAX) {
+    if weeks.abs() >= TWO_POWER_THIRTY_TWO {
         return false;
     };
 
@@ -919,15 +922,32 @@ pub(crate) fn is_valid_duration(
     // microseconds, or nanoseconds is an unsafe integer. This multiplication can be implemented
     // in C++ with an implementation of core::remquo() with sufficient bits in the quotient.
     // String manipulation will also give an exact result, since the multiplication is by a power of 10.
+    // NOTE: A time field whose magnitude reaches 2**53 × 10**9 is out of range on its own,
+    // and rejecting it here keeps the exact i128 arithmetic below from overflowing.
+    for v in [
+        days,
+        hours,
+        minutes,
+        seconds,
+        milliseconds,
+        microseconds,
+        nanoseconds,
+    ] {
+        if v.abs() >= MAX_TIME_FIELD {
+            return false;
+        }
+    }
     // Seconds part
     let normalized_seconds = (days.0 as i128 * 86_400)
         + (hours.0 as i128) * 3600
         + minutes.0 as i128 * 60
         + seconds.0 as i128;
-    // Subseconds part
-    let normalized_subseconds_parts = (milliseconds.0 as i128 / 1_000)
-        + (microseconds.0 as i128 / 1_000_000)
-        + (nanoseconds.0 as i128 / 1_000_000_000);
+    // Subseconds part: the sub-second fields are summed exactly before being
+    // reduced to whole seconds, so that they can carry into the seconds total.
+    let normalized_subseconds_parts = (milliseconds.0 as i128 * 1_000_000
+        + microseconds.0 as i128 * 1_000
+        + nanoseconds.0 as i128)
+        / 1_000_000_000;
 
     let normalized_seconds = normalized_seconds + normalized_subseconds_parts;
     // 8. If abs(normalizedSeconds) ≥ 2**53, return false.
